@@ -102,6 +102,26 @@ func TestC09Revisions(t *testing.T) {
 // P=1 keeps the sampled in-transaction audits (which would iterate the
 // transaction's tree) out of these transactions.
 func mergePreamble(second Op, abortFirst bool) []Op {
+	return mergePreambleAt(second, abortFirst, false)
+}
+
+// demotionPreamble: n objects below the key "a" (a node16/48/256 at its
+// lower size limit for n = 5, 17, 49), channels for the prefix and for a missing
+// key directly below the node, then one of the objects is deleted (the node is
+// demoted to the next smaller kind).
+func demotionPreamble(n int) []Op {
+	return []Op{
+		{K: opBulkInsert, H: 0, N: n}, {K: opCommit},
+		{K: opWatch, Q: &Query{Idx: idxID, Kind: qPrefix, Key: []byte{'a'}}},
+		{K: opWatch, Q: &Query{Idx: idxID, Kind: qGet, Key: []byte{'a', 0xf0}}},
+		{K: opWatch, Q: &Query{Idx: idxID, Kind: qLowerBound, Key: []byte{'a'}}},
+		{K: opDelete, ID: []byte{'a', 0x01}, P: 1}, {K: opCommit},
+	}
+}
+
+// atRoot: no other key beside the family, so the deleted key sits at the root
+// of the index tree.
+func mergePreambleAt(second Op, abortFirst bool, atRoot bool) []Op {
 	k, below := []byte{'a', 0x00}, []byte{'a', 0x00, 0x01}
 	ops := []Op{
 		{K: opInsert, ID: []byte{0xff}, P: 1}, {K: opInsert, ID: k, P: 1},
@@ -110,6 +130,9 @@ func mergePreamble(second Op, abortFirst bool) []Op {
 		{K: opWatch, Q: &Query{Idx: idxID, Kind: qGet, Key: second.ID}},
 		{K: opWatch, Q: &Query{Idx: idxID, Kind: qPrefix, Key: below}},
 		{K: opWatch, Q: &Query{Idx: idxID, Kind: qLowerBound, Key: below}},
+	}
+	if atRoot {
+		ops = ops[1:]
 	}
 	txn := []Op{{K: opDelete, ID: k, P: 1}, second}
 	if abortFirst {
@@ -130,13 +153,16 @@ var splitPreamble = []Op{
 	{K: opInsert, ID: []byte{'a', 0x00, 0x02}, P: 1}, {K: opCommit},
 }
 
-var profC06 = Profile{W: with(baseWeights(), map[int]int{opWatch: 10, opInsertWatch: 3, opAbort: 3}), TwoTxns: true, PreambleOneIn: 4,
+var profC06 = Profile{W: with(baseWeights(), map[int]int{opWatch: 10, opInsertWatch: 3, opAbort: 3}), TwoTxns: true, PreambleOneIn: 3,
 	Preambles: [][]Op{
 		mergePreamble(Op{K: opInsert, ID: []byte{'a', 0x00, 0x01, 0x00}, P: 1}, false),
 		mergePreamble(Op{K: opInsert, ID: []byte{'a', 0x00, 0x01, 0x00}, P: 1}, true),
 		mergePreamble(Op{K: opDelete, ID: []byte{'a', 0x00, 0x01, 0x02}, P: 1}, false),
 		mergePreamble(Op{K: opInsert, ID: []byte{'a', 0x00, 0x01}, P: 1}, false),
 		splitPreamble,
+		mergePreambleAt(Op{K: opInsert, ID: []byte{'a', 0x00, 0x01, 0x00}, P: 1}, false, true),
+		mergePreambleAt(Op{K: opDelete, ID: []byte{'a', 0x00, 0x01, 0x02}, P: 1}, false, true),
+		demotionPreamble(5), demotionPreamble(17), demotionPreamble(49),
 	}}
 
 const ruleC06 = "histories in which watch channels are taken on fresh snapshots (GetWatch/ListWatch/PrefixWatch/LowerBoundWatch/AllWatch on primary, unique, non-unique and both LPM indexes; InsertWatch) and retained (<=48) across later committed and aborted transactions; checked: open when handed out, closed when the Commit that changes the query's model answer returns, unchanged across aborts, and - at every hook point inside WriteTxn/Commit/Abort and every operation boundary - a channel found closed implies a fresh snapshot with a newer table revision. Non-trivial = a retained channel's answer was changed by a later commit and another retained channel survived an abort that had written to its table; distinct by case encoding."
